@@ -136,6 +136,7 @@ class CORSMiddleware(object):
                 resp.delete_header('Access-Control-Max-Age')
                 resp.delete_header('Access-Control-Expose-Headers')
                 resp.delete_header('Access-Control-Allow-Origin')
+                resp.delete_header('Access-Control-Allow-Credentials')
             else:
                 resp.set_header('Access-Control-Allow-Methods', allow)
                 resp.set_header('Access-Control-Allow-Headers', allow_headers)
